@@ -115,6 +115,7 @@ func (m *monRoll) TaskEnd(s *Sim, t *Task) {
 			s.Violate("C04", "M5", "foreign-label-patch", "%s (%s) patched pod %s, which belongs to replica set %s", t.Label(), v.Role(), p.Name, p.Labels[edsv1.ExtendedDaemonSetReplicaSetNameLabelKey])
 		}
 	}
+	m.checkLabelKept(s, t, v)
 	f := facts(v)
 	ru := v.EDS.Spec.Strategy.RollingUpdate
 	ann := v.EDS.Annotations
@@ -373,5 +374,60 @@ func (m *monRoll) checkBudget(s *Sim, t *Task, v *SyncView, f *syncFacts, maxU i
 				s.Violate("C03", "M2", "unavailable-first", "%s deleted an available pod while outdated unavailable pod %s on %s was left in place", t.Label(), p.Name, node)
 			}
 		}
+	}
+}
+
+// checkLabelKept: a sync of the active replica set that computed its status (so it went through the
+// whole rolling-update step) shortly after the promotion must try to remove the canary label from
+// each of its pods that carries it - whatever else failed in that sync.
+func (m *monRoll) checkLabelKept(s *Sim, t *Task, v *SyncView) {
+	if v.Role() != "active" || t.Crashed || t.Panic != nil {
+		return
+	}
+	computed := false
+	for _, c := range v.StatusWrites {
+		if c.Kind == KERS && c.Obj != nil {
+			if st, _ := c.Obj["status"].(map[string]interface{}); st != nil && st["status"] == "active" {
+				computed = true
+			}
+		}
+	}
+	if !computed {
+		return
+	}
+	start := t.StartAt
+	for i := range v.ERS.Status.Conditions {
+		if c := &v.ERS.Status.Conditions[i]; c.Type == edsv1.ConditionTypeActive && c.Status == corev1.ConditionTrue {
+			start = c.LastTransitionTime.Time
+		}
+	}
+	if !s.Now().Before(start.Add(5*time.Minute - 15*time.Second)) {
+		return // the window in which the labels are cleaned may be over
+	}
+	for _, c := range t.Calls {
+		if c.Verb == "list" && c.Kind == KPod && c.Err != nil {
+			return // the labelled pods could not be listed
+		}
+	}
+	patched := map[string]bool{}
+	for _, c := range v.PodPatches {
+		patched[c.NS+"/"+c.Name] = true
+	}
+	for _, p := range v.Pods {
+		if p.Namespace != v.ERS.Namespace || p.Labels[edsv1.ExtendedDaemonSetReplicaSetNameLabelKey] != v.ERS.Name {
+			continue
+		}
+		if _, has := p.Labels[canaryLabel]; !has || patched[p.Namespace+"/"+p.Name] {
+			continue
+		}
+		cur := s.Store.GetPod(p.Namespace, p.Name)
+		if cur == nil || string(cur.UID) != string(p.UID) {
+			continue
+		}
+		if _, still := cur.Labels[canaryLabel]; !still {
+			continue
+		}
+		s.Stats.NonVacuous["C04.label-window"]++
+		s.Violate("C04", "M5", "label-kept", "%s (active since %s) went through its rolling-update step but did not try to remove the canary label from its pod %s", t.Label(), start.Format(time.RFC3339), p.Name)
 	}
 }
